@@ -10,3 +10,38 @@ package functioncontracts
 //@ focus out-of-scope (not (callres "IsPkgInScope"))
 //@ ensures silent-when-out-of-scope (= (calls "effect:") 0)
 //@ ensures empty-result-when-out-of-scope (and (fresh result0) (= (len result0) 0) (isnil result1))
+
+//@ -- C20 / C19: path-sensitive nilness inference. rt(v) is the run-time value of the SSA value v (0 = nil) in the
+//@ -- execution that takes the edge under consideration; a recorded fact must be true of that execution.
+//@ define (soundFact v n) (and (=> (= n isnil) (= (rt v) 0)) (=> (= n isnonnil) (not (= (rt v) 0))))
+
+//@ func branch
+//@ prop C19 C20
+//@ ensures no-comparison-no-successors (=> (= result2 nil) (and (= result0 nil) (= result1 nil)))
+//@ ensures eql-true-edge-first (=> (and (not (= result2 nil)) (= (. result2 Op) token.EQL)) (and (= result0 (idx b.Succs 0)) (= result1 (idx b.Succs 1))))
+//@ ensures neq-true-edge-second (=> (and (not (= result2 nil)) (= (. result2 Op) token.NEQ)) (and (= result0 (idx b.Succs 1)) (= result1 (idx b.Succs 0))))
+//@ ensures only-equality-tests (=> (not (= result2 nil)) (or (= (. result2 Op) token.EQL) (= (. result2 Op) token.NEQ)))
+//@ ensures is-the-branch-condition (=> (not (= result2 nil)) (>= (len b.Succs) 2))
+
+//@ -- facts read from a table are true of the execution (the table is sound on this path): assumption of learnNilness
+//@ func (nilnessTable).nilnessOf
+//@ nobody
+//@ ensures table-sound (soundFact v result)
+
+//@ -- recording a fact requires it to be true of the execution
+//@ func (nilnessTable).expandNilness
+//@ nobody
+//@ requires (soundFact val nn)
+//@ modifies (map t)
+
+//@ func learnNilness
+//@ prop C20
+//@ modifies (map (typed nilnessTable 0))
+//@ -- SSA semantics of the conditional branch at the end of pred: the first successor is taken iff the comparison holds
+//@ assume ssa-branch-semantics (let ((bo (callres "branch" 2))) (=> (not (= bo nil))
+//@    (and (=> (= succ (idx pred.Succs 0)) (ite (= (. bo Op) token.EQL) (= (rt (. bo X)) (rt (. bo Y))) (not (= (rt (. bo X)) (rt (. bo Y))))))
+//@         (=> (= succ (idx pred.Succs 1)) (ite (= (. bo Op) token.EQL) (not (= (rt (. bo X)) (rt (. bo Y)))) (= (rt (. bo X)) (rt (. bo Y))))))))
+//@ assume succ-is-a-successor (or (= succ (idx pred.Succs 0)) (= succ (idx pred.Succs 1)))
+//@ ensures infeasible-only-if-contradictory (=> (not result1) (let ((bo (callres "branch" 2))) (not (= bo nil))))
+
+//@ method golang.org/x/tools/go/ssa.Value Type fn
